@@ -10,6 +10,26 @@ TECH = ("bounded symbolic execution of /repo's go/ssa (own SSA->SMT-LIB2 executo
         "z3/cvc5 over symbolic strings/ints/bools; counterexamples replayed natively with go test -overlay")
 
 claimed = {
+    "C02": dict(
+        level="model_checking",
+        text="Generator side of the property: the six-strategy argument chain, the service compile step and its helpers are executed symbolically; every argument form must compile to the dependency the documentation names (literal of the same type, @service, !tagged, !value, $gontainer, else a parameter pattern), first match wins, and arguments / calls (with wither flag) / fields keep the declared order and values. That the runtime then executes a definition as documented is the external library's contract and is not executed.",
+        note="Trusted: exporter stub, the wiring copied from gontainer_resolvers.yaml in the harness, solvers. Unquoted imports followed by dotted values are assumed away (ambiguous in the grammar itself).",
+        design="5.2"),
+    "C04": dict(
+        level="model_checking",
+        text="Generator side: Tag.UnmarshalYAML over every YAML shape, tag names and priorities (arbitrary ints) carried unchanged, !tagged arguments, decorators kept in declaration order with tag, function and arguments in order — all as solver obligations over symbolic names. Ordering by priority and decoration semantics are the runtime library's contract.",
+        note="Trusted: exporter stub, solvers. Merge order of decorators across files is C09.",
+        design="5.4"),
+    "C13": dict(
+        level="model_checking",
+        text="The getter/must-getter truth table (getter absent/empty/set x must_getter x default_must_getter), the meta name defaults and the collision-freedom of G, GInContext, MustG, MustGInContext against the method set and embedded field of the pinned runtime type are decided symbolically. Found and fixed: duplicate getters and the getter 'Container' were accepted (D7).",
+        note="Trusted: method set computed with go/types from the pinned runtime module; the getter templates belong to the template stage.",
+        design="5.13"),
+    "C15": dict(
+        level="model_checking",
+        text="Generator side: a todo service compiles to {name, todo} whatever its other attributes and counts as declared; a %todo(args)% parameter compiles to a provider calling paramTodo with the arguments verbatim and counts as declared; every string parameter is emitted as a provider function literal (lazy), never as an evaluated value. Override histories are the runtime library's contract.",
+        note="Trusted: exporter stub, solvers.",
+        design="5.15"),
     "C03": dict(
         level="model_checking",
         text="Every feasible path of the chunker (and, as they are added, tokenizer/factories) within the stated string-length bound is explored symbolically from the current SSA; each assertion is an unsat query. This is exhaustive within the bound over the full Unicode alphabet, which sampling cannot give; it says nothing beyond the bound or about the runtime evaluating the emitted closures.",
@@ -30,6 +50,11 @@ claimed = {
         text="BuildDependencyGraph, ValidateCircularDeps and the runtime's container/internal/graph id scheme are executed symbolically; 'rejected iff the dependency relation of the statement is cyclic' is decided by the solver against a transitive-closure reference over symbolic names, including self-loops, tag and decorator edges and parameter edges.",
         note="Trusted: abstract model of gontainer-helpers/v3/graph (gonum cycle enumeration summarised as: non-empty iff cyclic, a cycle through every node on one); replays of counterexamples run the real gonum code.",
         design="5.7"),
+    "C08": dict(
+        level="model_checking",
+        text="2-safety over map iteration orders: every range-over-map statement in the repository (inventory regenerated from the SSA on each run; an uncovered site makes the check inconclusive) is executed twice under independently chosen permutations of the map's entries and results, diagnostics and side-effect order must be equal for all pairs of orders. Found and fixed: alias lookup (D2), meta import/function diagnostics (D9a), duplicate-pattern diagnostics (D9b).",
+        note="Trusted: permutation model of Go's map iteration (all orders of <= 3-4 entries), collaborators of compile steps are recording mocks; environment variables and cwd are not read by repo code.",
+        design="5.8"),
     "C09": dict(
         level="model_checking",
         text="input.Merge and its helpers executed symbolically on three symbolic inputs: associativity, identity of the empty file and the per-attribute laws (later scalar wins, maps united with later values winning, non-empty arguments replace, calls/tags/decorators append) are solver obligations over all nil-patterns and symbolic contents within the bound.",
